@@ -229,8 +229,13 @@ CLAIMED['C16'] = dict(
          'catchable stack-overflow error, so the call depth is bounded on every path, native callbacks included; C16.K3 op_inherit '
          'never accepts a builtin value class as superclass, which is what makes the unchecked receiver casts of the builtin '
          'natives sound. Found and fixed F21 (recursion through native callbacks skipped the depth limit: host stack overflow) and '
-         'F14 (class L : List {}: abort / segfault). The bodies of the ~200 natives beyond the list natives of C11 and the '
-         'error-while-handling paths are not machine checked: this claim covers the gates, not every built-in.',
+         'F14 (class L : List {}: abort / segfault); C16.K4 every native declared in laythe_lib (signature constants and `native!` '
+         'declarations read from the current sources; about 75 of 123 decided, the rest listed as not encoded in the evidence) runs '
+         'from MIR on arguments constrained only by its signature and receiver class: every unchecked cast is justified, to_num / '
+         'to_obj are applied only to values of that kind, the argument slice is indexed within the admitted count (found and fixed '
+         'F24 zip / chain, F25 collect / isA?, F26 RegExp pattern field); C16.K3 chan(n) for every value (F23 capacity overflow); '
+         'exit requests through native callbacks (C18.K2, F22). What the native bodies compute, the natives not encoded (string, io, '
+         'math, iterator constructors) and errors raised while another error is handled are not machine checked.',
     note='Trusted: rustc MIR printer, mirsym, abstract Vm state (vmabs.py), ParameterKind::is_valid summarised per (parameter, '
          'argument) pair with Object accepting everything, native bodies summarised by their result, Z3.',
     ref='§4 C16')
